@@ -136,7 +136,9 @@ def no_future_timestamps(ctx):
     rd = ReachingDefs(cfg, rx.node)
     for c in calls_in(rx.node):
         if call_attr(c) == 'updateValue' and len(c.args) >= 4:
-            o = rd.origins_at(c, c.args[3])
+            # updateValue(module, param, value, timestamp, readerror) - also as updateValue(*module_param, value, timestamp, readerror)
+            ts = c.args[-2] if any(isinstance(a, ast.Starred) for a in c.args) else c.args[3]
+            o = rd.origins_at(c, ts)
             ok = bool(o) and all(isinstance(x, ast.Call) and dotted(x.func) == 'min' and any('now' in src(a) or 'time.time()' in src(a) for a in x.args) for x in o)
             ctx.check(ok, f'{rx.qualname}:timestamp clipped to now', c, 'timestamp = min(now, timestamp)',
                       f'the timestamp handed to the cache is {[src(x) for x in o]}: a node clock ahead of the client yields timestamps in the future', rx)
@@ -168,6 +170,35 @@ def message_kind_table(ctx):
 def rdo(f, cfg, at, name_expr):
     """flow-sensitive origins of a local at a use"""
     return ReachingDefs(cfg, f.node).origins_at(at, name_expr)
+
+
+@rule('C12.R5b', min_instances=1)
+def every_update_message_kind_finds_its_parameter(ctx):
+    """a specifier that is a bare module name stands for `<module>:value` (`<module>:target` for `changed`) - for EVERY message
+    kind that updates the cache (UPDATE_MESSAGES), the error forms included.  Where the accessible is taken from a table
+    keyed by the message kind, the table covers all of UPDATE_MESSAGES: a kind that is missing is treated as an unknown
+    parameter, the message is not cached and no callback sees it"""
+    from sa.model import UNKNOWN
+    m = ctx.m
+    mod = m.modules.get('frappy.client')
+    um = m.const_name(mod, 'UPDATE_MESSAGES') if mod else UNKNOWN
+    if um is UNKNOWN or not isinstance(um, (set, frozenset)):
+        ctx.undecided('frappy.client.UPDATE_MESSAGES', None, 'constant can not be folded')
+        return
+    tables = []
+    for name, expr in sorted(mod.consts.items()):
+        if isinstance(expr, ast.Dict) and expr.values and all(isinstance(v, ast.Constant) and v.value in ('value', 'target') for v in expr.values):
+            t = m.const_name(mod, name)
+            if t is not UNKNOWN and isinstance(t, dict):
+                tables.append((name, expr, t))
+    if not tables:
+        ctx.ok('frappy.client:default accessible for a bare module specifier', None, 'chosen by an if / else over the message kind (total)')
+        return
+    for name, expr, t in tables:
+        missing = set(um) - set(t)
+        ctx.check(not missing, f'frappy.client.{name}:covers every kind of update message', expr, f'keys {sorted(t)}',
+                  f'{name} has no entry for {sorted(missing)}: such a message with a bare module specifier (e.g. `error_update mod [...]`) finds no parameter - '
+                  'the cache keeps the previous value, no updateItem / updateEvent callback is invoked and the message ends as unhandled')
 
 
 @rule('C12.R6', min_instances=3)
